@@ -159,7 +159,11 @@ WITH RECURSIVE trace(i, safe, chain, safe_nh, chain_nh) AS (
     FROM step AS s
     JOIN node AS cnode ON cnode.i = s.node
     LEFT JOIN step AS creator_step ON creator_step.node = cnode.creator
-    WHERE s._check_safe
+    -- A flagged step whose creator is flagged too is not a seed:
+    -- its creator's _safe/_safe_ignoring_hold are about to change in this very pass,
+    -- so seeding from them would combine a stale value with the fresh one below (MIN).
+    -- Such a step is always reached through the recursion from its (topmost flagged) creator.
+    WHERE s._check_safe AND NOT COALESCE(creator_step._check_safe, 0)
 
     UNION ALL
 
